@@ -80,7 +80,7 @@ def main():
     args = [a for a in sys.argv[1:] if not a.startswith("--")]
     confirm_only = "--confirm-only" in sys.argv
     tier = "quick"
-    ids = args or sorted(f"{d}-{l}" for d in os.listdir(CAND) for l in "AB" if os.path.exists(os.path.join(CAND, d, f"{l}.diff")))
+    ids = args or sorted(f"{d}-{l}" for d in os.listdir(CAND) for l in "ABCD" if os.path.exists(os.path.join(CAND, d, f"{l}.diff")))
     for sid in ids:
         pid, letter = sid.split("-")
         dst = os.path.join(ROOT, "seeded", sid)
